@@ -8,7 +8,7 @@ echo "== confirm $id"
 tools/confirm_seeded.sh $src $id tests 2>&1 | tail -6
 echo "== check $id"
 echo "{" > /tmp/mut/res_$id.json; first=1
-for m in $src/out/m*; do
+for m in $src/out/m[0-9]; do
   n=$(basename $m)
   out=$(tools/try_patch.sh $m/patch.diff $id 2>&1)
   viol=$(echo "$out" | grep -c "^VIOLATION")
